@@ -84,6 +84,15 @@ CHECKS["C20"] = dict(cat="other", technique="finite-domain abstract interpretati
     note="Trusted: libm's and micromath's own floor/abs/rem_euclid; IEEE semantics of `%`, to_bits/from_bits and saturating casts; rustc MIR construction in both profiles. Not decided: error bounds of sqrt, recip_sqrt, powf, exp and the trigonometric/inverse-trigonometric approximations over their domains (numeric), the fallback floor beyond 2^63, rem_euclid for m <= 0.",
     ref="§8.10 C20")
 
+CHECKS["C04"] = dict(cat="other", technique="symbolic abstract interpretation of scan()/ScanlineIter::next/tri_fill with round_up_to_half as an uninterpreted function; exact rational-function identities per vertex-order scenario; class analysis of the rounding function",
+    text="Decides the structural clauses only: scan(y0..y1) emits rows RND(y0), RND(y0)+1, ... in increasing order and exactly RND(y1)-RND(y0) of them; on the row at height Y the span runs from RND(x of the left edge at Y) to RND(x of the right edge at Y) (edge formulas as rational identities), the reported x range is the cast of those two rounded values and the fragment count the cast of their difference, so range and fragment sequence have the same length (non-negative coordinates); tri_fill, for every order of the three vertices' y and both left/right arrangements, fills top..mid then mid..bot with the middle vertex on the side the x comparison chose and the opposite corner on the long edge at the same y, so the two parts share a base: no gap, no row twice; the rounding function is floor(x+0.5)+0.5 (pixel-centre rule). Which centres fall inside under float rounding of the edge stepping is NOT claimed.",
+    note="Identities over the reals. Trusted: rustc MIR construction, the symbolic interpreter's models (iterators, mem::replace, sort_by driven by the code's own comparator), sympy's fraction field as an arithmetic library. Not decided: the 0.001 px tolerance band, vertex-order independence of rounded values, degenerate triangles, negative coordinates (usize casts saturate).",
+    ref="§8.11 C04/C05")
+CHECKS["C05"] = dict(cat="other", technique="symbolic abstract interpretation of the scan converter on a trapezoid with planar vertex data; fragment position/depth/attribute compared with the plane formulas as exact rational-function identities; tri_fill per vertex-order scenario",
+    text="Decides the interpolation FORMULA over the reals: for a symbolic trapezoid with horizontal bases whose corner data lie on a depth plane g and an attribute plane f, fragment (k, m) of scan() sits at x = RND(left edge x of its row) + m, y = RND(y0) + k (pixel centres, one apart), its depth is g at that position and its attribute is f/g at that position (the plane through the vertex values divided by the interpolated reciprocal depth: perspective correction); tri_fill, for every order of the vertices' y and both left/right arrangements, hands scan() trapezoids whose corners lie on the bases and on the same two planes (the split point is on the long edge with interpolated data). The 0.5 % accuracy of the incremental float evaluation and finiteness are NOT claimed.",
+    note="Identities over the reals on a 2x3 (quick) / 3x4 (thorough) block of fragments; by linearity of the stepping the same formula governs every later fragment. Trusted: rustc MIR construction, the symbolic interpreter's models, sympy's fraction field as an arithmetic library. Not decided: rounding error, NaN/inf on degenerate input, the meaning of round_up_to_half (C20.F7 / C04.J4).",
+    ref="§8.11 C04/C05")
+
 NA = {}
 
 
